@@ -142,8 +142,10 @@ def mergeIter (e0 e1 : Events α) : Events α :=
   let nf1 := isNameUnknown e1.err
   if nf0 && nf1 then ⟨[], e0.err⟩                          -- ErrorSeq(err0)
   else
-    let err0 := if nf0 then none else e0.err
-    let err1 := if nf1 then none else e1.err
+    -- a member that does not know the repository has nothing to list; one that delivered items and THEN
+    -- failed has failed, whatever the error (fix F34)
+    let err0 := if nf0 && e0.items.isEmpty then none else e0.err
+    let err1 := if nf1 && e1.items.isEmpty then none else e1.err
     let err := match err0 with
       | some e => some e
       | none => err1
